@@ -286,7 +286,7 @@ func genPlanC19(def *PropDef, tier string, seed uint64, run int64) *Plan {
 		}
 		add(Op{K: "w_close"})
 		if rng.Chance(25) {
-			add(Op{K: "ro_damage_probe", A: int64(rng.Intn(2)), B: int64(rng.Intn(4))})
+			add(Op{K: "ro_damage_probe", A: int64(rng.Intn(3)), B: int64(rng.Intn(4))})
 		}
 		if rng.Chance(35) {
 			add(Op{K: "fail_open", A: int64(rng.Intn(2)), B: int64(rng.Range(1, 3)), C: int64(rng.Pick(20, 50, 10, 20))})
@@ -736,6 +736,70 @@ func c19FailOpen(r *Run, s *c19State, op *Op) {
 	}
 }
 
+// c19LeftoverProbe: with nothing open, the directory is given what a delete that died between
+// "move the rewritten segment in under its new name" and "remove the old segment" leaves
+// behind: next to a segment with at least two messages, a second log file that starts at its
+// second message. A read-only handle (B: bit0 Check, bit1 Recover) is opened, queried and
+// closed: whatever it makes of that directory, no *.log file may change or disappear. The
+// directory is put back afterwards.
+func c19LeftoverProbe(r *Run, op *Op, bases []int64) {
+	full := snapDir(r.Dir)
+	restore := func() {
+		for n := range snapDir(r.Dir) {
+			if _, ok := full[n]; !ok {
+				_ = os.Remove(filepath.Join(r.Dir, n))
+			}
+		}
+		for n, b := range full {
+			if err := os.WriteFile(filepath.Join(r.Dir, n), b, 0o600); err != nil {
+				panic(infraErr{err})
+			}
+		}
+	}
+	planted := false
+	for i := len(bases) - 1; i >= 0 && !planted; i-- {
+		name := fmt.Sprintf("%020d.log", bases[i])
+		v, recs, validLen, clean, err := refcodec.DecodeLog(full[name], bases[i])
+		if err != nil || !clean || len(recs) < 2 {
+			continue
+		}
+		data := append(append([]byte(nil), refcodec.LogHeader(v)...), full[name][recs[1].Pos:validLen]...)
+		if err := os.WriteFile(filepath.Join(r.Dir, fmt.Sprintf("%020d.log", recs[1].Off)), data, 0o600); err != nil {
+			panic(infraErr{err})
+		}
+		planted = true
+	}
+	if !planted {
+		return
+	}
+	defer restore()
+	before := logsOnly(snapDir(r.Dir))
+	o := r.OOpts
+	o.Readonly, o.Check, o.Recover, o.Eager = true, op.B&1 == 1, op.B&2 == 2, false
+	var l klevdb.Log
+	oerr := guard(func() error {
+		var e error
+		l, e = klevdb.Open(r.Dir, o.K(&r.P.Cfg))
+		return e
+	})
+	tag := fmt.Sprintf("crashed-delete-leftover|check=%v|recover=%v", o.Check, o.Recover)
+	if pe, ok := oerr.(*panicErr); ok {
+		r.violate("ro-damage|"+tag+"|open-panic", "read-only Open of a directory a crashed delete left behind panicked: %v", pe.v)
+		return
+	}
+	if oerr == nil {
+		_, _, _ = scanLog(l, 3, int(r.M.Next)*2+20)
+		_ = guard(func() error { _, e := l.Stat(); return e })
+		_ = guard(func() error { return l.Close() })
+		r.probe("ro_leftover_probe_opened")
+	} else {
+		r.probe("ro_leftover_probe_refused")
+	}
+	if d := before.diff(logsOnly(snapDir(r.Dir))); d != "" {
+		r.violate("ro-damage|"+tag+"|log-file-changed", "a read-only handle (Check=%v Recover=%v) on a directory a crashed delete left behind changed a log file: %s", o.Check, o.Recover, d)
+	}
+}
+
 // c19DamageProbe: with nothing open, the newest log file gets a torn tail (A=0) or a flipped
 // byte inside its last record (A=1); a read-only handle is opened (B: bit0 Check, bit1
 // Recover; it may refuse to open), queried and closed. Whatever the handle makes of the
@@ -747,6 +811,10 @@ func c19DamageProbe(r *Run, s *c19State, op *Op) {
 	}
 	bases := segmentBases(r.Dir)
 	if len(bases) == 0 {
+		return
+	}
+	if op.A == 2 {
+		c19LeftoverProbe(r, op, bases)
 		return
 	}
 	lp := filepath.Join(r.Dir, fmt.Sprintf("%020d.log", bases[len(bases)-1]))
